@@ -480,6 +480,34 @@ theorem listInsertValues_tie (l vs : List α) (slot : Nat) (fuel : Nat)
     rw [e0] at this
     rw [this]
 
+/-! ### the methods that hand the call on to the array underneath (GetValue, GetValues, SetValue, SetValues, GetSize, IsEmpty) -/
+
+theorem listGetValue_tie (l : List α) (index : Int) (fuel : Nat) :
+    Generated.listGetValue index l fuel = some ((Seq.getValue l index).map (fun x => (x, l))) := by
+  unfold Generated.listGetValue
+  cases Seq.getValue l index <;> rfl
+
+theorem listGetValues_tie (l : List α) (first last : Int) (fuel : Nat) :
+    Generated.listGetValues first last l fuel = some ((Seq.getValues l first last).map (fun x => (x, l))) := by
+  unfold Generated.listGetValues
+  cases Seq.getValues l first last <;> rfl
+
+theorem listSetValue_tie (l : List α) (index : Int) (v : α) (fuel : Nat) :
+    Generated.listSetValue index v l fuel = some (Seq.setValue l index v) := by
+  unfold Generated.listSetValue
+  cases Seq.setValue l index v <;> rfl
+
+theorem listSetValues_tie (l vs : List α) (index : Int) (fuel : Nat) :
+    Generated.listSetValues index vs l fuel = some (Seq.setValues l index vs) := by
+  unfold Generated.listSetValues
+  cases Seq.setValues l index vs <;> rfl
+
+theorem listGetSize_tie (l : List α) (fuel : Nat) :
+    Generated.listGetSize l fuel = some (.ok ((l.length : Int), l)) := rfl
+
+theorem listIsEmpty_tie (l : List α) (fuel : Nat) :
+    Generated.listIsEmpty l fuel = some (.ok ((l.length == 0), l)) := rfl
+
 /-! ### the class functions MakeFromSequence and Concatenate -/
 
 theorem listMakeFromSequence_loop_tie (values : List α) (bound : Nat) (hb : IsInt64 ((bound : Int) + 2)) :
